@@ -181,12 +181,28 @@ def part_tensor_sample(rng, res, riders, i):
     order = list(names)
     rng.shuffle(order)
     data = np.round(rng.uniform(-2, 2, size=tuple(sizes[n] for n in order)), 2)
-    mask = rng.random(data.shape) < 0.2
-    data[mask] = -np.inf
-    riders.before(data)
-    t = Tensor(data, OrderedDict((n, Bint[sizes[n]]) for n in order))
     subsets = [s for r in range(1, len(names) + 1) for s in itertools.combinations(names, r)]
     S = subsets[int(rng.integers(len(subsets)))]
+    if rng.random() < 0.3:
+        # one finite cell per batch element: the sampled point is then determined, so any wrong decoding of the joint draw shows
+        axes_s = [order.index(n) for n in S]
+        keep = np.zeros(data.shape, dtype=bool)
+        bshape = [data.shape[ax] for ax in range(data.ndim) if ax not in axes_s]
+        baxes = [ax for ax in range(data.ndim) if ax not in axes_s]
+        for bidx in itertools.product(*[range(z) for z in bshape]):
+            cell = [0] * data.ndim
+            for ax, v in zip(baxes, bidx):
+                cell[ax] = v
+            for ax in axes_s:
+                cell[ax] = int(rng.integers(data.shape[ax]))
+            keep[tuple(cell)] = True
+        data[~keep] = -np.inf
+        res.count("tensor-sample:one-hot")
+    else:
+        mask = rng.random(data.shape) < 0.2
+        data[mask] = -np.inf
+    riders.before(data)
+    t = Tensor(data, OrderedDict((n, Bint[sizes[n]]) for n in order))
     nsi = int(rng.integers(0, 3))
     si = OrderedDict((n, Bint[int(rng.integers(1, 4))]) for n in ["p", "q"][:nsi])
     if rng.random() < 0.1 and nsi:
